@@ -35,7 +35,9 @@ def run_one(s):
                     ev.append({"a": "restatic", "iv": op["iv"], "ret": 0, "exc": r[1] if len(r) > 1 else r[0]})
                 continue
             if op["a"] == "call":
-                r = watched(lambda: smp.sample_points(device="cpu") if len(ev) % 2 else smp.sample_points())
+                # device arguments: absent / "cpu" / torch.device / the indexed spelling of the same device
+                dv = [None, "cpu", torch.device("cpu"), "cpu:0"][(len(ev) + s["tid"]) % 4]
+                r = watched(lambda: smp.sample_points() if dv is None else smp.sample_points(device=dv))
             else:
                 r = watched(lambda: next(smp))
             if r[0] == "ok":
